@@ -103,4 +103,38 @@ CONTRACTS = [
                 "untouched-rows": "forall(lambda u: forall(lambda j: accessor[u][j] == -1, 0, 4), _i, ipow(4, observed_length))"}),
         },
     ),
+    # ------------------------------------------------------------------ C07
+    dict(
+        name="dsw.spiderweb.set_vt", n_loops=0, lemmas=["pv_store_frame"],
+        params={"dna_sequence": "str", "vt_length": "nat"},
+        requires={"check-length": "vt_length >= 1"},
+        returns="str",
+        ensures={
+            "length": "len(result) == vt_length",
+            "dna": "is_dna(result)",
+            "first-symbol": "code(result[0]) == ssum(codes(dna_sequence), 0, len(dna_sequence)) % 4",
+            "ascent-digits": "dnav(result, 1, vt_length) == ascents(dna_sequence) % ipow(4, vt_length - 1)",
+        },
+        raises={"ValueError": "not is_dna(dna_sequence)"},
+        ghost={
+            "entry": "ipow_mono(4, 0, vt_length - 1)",
+            # sum(where(mask)[0]) == sum over the positions p with mask(p), by induction over p with the rank r of p in the index list
+            "after_assign:vt_value": "idx = where((values[1:] - values[:-1]) > 0)[0]\n"
+                                     "pairs = len(values[1:])\n"
+                                     "ssum_zero_iff(A(values), D(values), P(values, 0), P(values, len(values)))\n"
+                                     "p = 0\n"
+                                     "r = 0\n"
+                                     "while p < pairs:\n"
+                                     "    if r < len(idx) and idx[r] == p:\n"
+                                     "        r += 1\n"
+                                     "    p += 1\n"
+                                     "assert r == len(idx), 'all-indices-consumed'",
+        },
+        loops={"after_assign:vt_value#1": dict(invariant={
+            "range": "0 <= p <= pairs and 0 <= r <= len(idx)",
+            "next-index-ahead": "implies(r < len(idx), idx[r] >= p)",
+            "previous-index-behind": "implies(r > 0, idx[r - 1] < p)",
+            "partial-sum": "ssum(idx, 0, r) == ascents(dna_sequence, p)",
+        }, variant="pairs - p")},
+    ),
 ]
